@@ -78,22 +78,27 @@ def sh(cmd, cwd=None, timeout=300, env=None):
 
 class Config:
     """prog: tuple of TUs, each a tuple of header names; lib: 'a'|'so'; opt: a key of VARIANTS"""
-    __slots__ = ('prog', 'lib', 'opt', 'kind')
+    __slots__ = ('prog', 'lib', 'opt', 'kind', 'clash')
 
-    def __init__(self, prog, lib, opt='O0', kind=''):
+    def __init__(self, prog, lib, opt='O0', kind='', clash=()):
         self.prog = tuple(tuple(t) for t in prog)
         self.lib = lib
         self.opt = opt
         self.kind = kind
+        # names of objects the client program defines itself (translation unit 0): a library that exports a symbol
+        # outside its cstl_ / __cstl_ namespace collides with a client that legally uses that name
+        self.clash = tuple(clash)
 
     def ident(self):
-        return (self.prog, self.lib, self.opt)
+        return (self.prog, self.lib, self.opt) + ((self.clash,) if self.clash else ())
 
     def desc(self):
-        return 'lib=%s opt=%s tus=%s' % (self.lib, self.opt, ' | '.join(','.join(t) for t in self.prog))
+        return 'lib=%s opt=%s tus=%s%s' % (self.lib, self.opt, ' | '.join(','.join(t) for t in self.prog),
+                                          (' client-defines=' + ','.join(self.clash)) if self.clash else '')
 
     def to_json(self):
-        return json.dumps(dict(prog=[list(t) for t in self.prog], lib=self.lib, opt=self.opt, kind=self.kind))
+        return json.dumps(dict(prog=[list(t) for t in self.prog], lib=self.lib, opt=self.opt, kind=self.kind,
+                               clash=list(self.clash)))
 
     def size(self):
         return (sum(len(t) for t in self.prog), len(self.prog), self.lib != 'a', self.opt != 'O0')
@@ -123,6 +128,8 @@ def enumerate_configs(names, tier, seed):
             for lib in ('a', 'so'):
                 cfgs.append(Config([t], lib, 'O0', 'all one-TU'))
                 cfgs.append(Config([t, t], lib, 'O0', 'all two-TU'))
+        for t in singles + alls[:1]:
+            cfgs.append(Config([t], 'a', 'O0-no-posix-macro', 'one-TU, client without _POSIX_C_SOURCE'))
     else:
         for opt in ('O0', 'O2'):
             for lib in ('a', 'so'):
@@ -167,7 +174,7 @@ def closure_functions(facts, tu):
     return fns, objs
 
 
-def tu_text(facts, tu, role):
+def tu_text(facts, tu, role, clash=()):
     o = ['/* generated by checks/c18.py: translation unit %d of a C18 client program.' % role,
          '   It includes the headers below in this order and takes the address of every',
          '   function (and object) they declare or define, so that a missing definition shows up as an',
@@ -187,6 +194,8 @@ def tu_text(facts, tu, role):
             o.append('    &%s,' % n)
         o.append('    (const void *)0')
         o.append('};')
+    for n in clash:
+        o.append('int %s = 1;   /* the client\'s own object */' % n)
     if role == 0:
         o.append('int main(void)')
         o.append('{')
@@ -216,20 +225,21 @@ class Toolchain:
         self.weakres = {}
         self.weaklock = threading.Lock()
 
-    def obj_key(self, tu, role, opt):
-        return hashlib.sha1(repr((tu, role, opt)).encode()).hexdigest()[:16]
+    def obj_key(self, tu, role, opt, clash=()):
+        return hashlib.sha1(repr((tu, role, opt) + ((clash,) if clash else ())).encode()).hexdigest()[:16]
 
-    def compile_cmd(self, tu, role, opt):
-        k = self.obj_key(tu, role, opt)
+    def compile_cmd(self, tu, role, opt, clash=()):
+        k = self.obj_key(tu, role, opt, clash)
         src = os.path.join(self.dir, 'tu_%s.c' % k)
         obj = os.path.join(self.dir, 'tu_%s.o' % k)
         return src, obj, [self.cc] + self.cflags + VARIANTS[opt] + ['-I', self.inc, '-c', src, '-o', obj]
 
     def compile(self, job):
-        tu, role, opt = job
-        src, obj, cmd = self.compile_cmd(tu, role, opt)
+        tu, role, opt = job[:3]
+        clash = job[3] if len(job) > 3 else ()
+        src, obj, cmd = self.compile_cmd(tu, role, opt, clash)
         with open(src, 'w') as f:
-            f.write(tu_text(self.facts, tu, role))
+            f.write(tu_text(self.facts, tu, role, clash))
         rc, out = sh(cmd)
         weak = []
         if rc == 0:
@@ -282,11 +292,11 @@ class Toolchain:
     def link_cmd(self, cfg):
         k = hashlib.sha1(repr(cfg.ident()).encode()).hexdigest()[:16]
         exe = os.path.join(self.dir, 'prog_%s' % k)
-        objs = [self.compile_cmd(t, i, cfg.opt)[1] for i, t in enumerate(cfg.prog)]
+        objs = [self.compile_cmd(t, i, cfg.opt, cfg.clash if i == 0 else ())[1] for i, t in enumerate(cfg.prog)]
         return exe, [self.cc, '-o', exe] + objs + ['-L' + self.libdir, '-l:libcstl.%s' % cfg.lib, '-lm']
 
     def link(self, cfg):
-        parts = [self.objs[(t, i, cfg.opt)] for i, t in enumerate(cfg.prog)]
+        parts = [self.objs[self.job_of(cfg, i, t)] for i, t in enumerate(cfg.prog)]
         bad = [p for p in parts if p['rc'] != 0]
         if bad:
             return cfg, dict(stage='compile', ok=False, out=bad[0]['out'], cmds=[p['cmd'] for p in parts], parts=parts)
@@ -312,11 +322,15 @@ class Toolchain:
                     return cfg, dict(stage='weak', ok=False, out=w['out'], cmds=cmds + [run, w['cmd']], parts=parts, weak=name)
         return cfg, dict(stage='done', ok=True, out='', cmds=cmds + [run], parts=parts)
 
+    @staticmethod
+    def job_of(cfg, i, t):
+        return (t, i, cfg.opt, cfg.clash) if (i == 0 and cfg.clash) else (t, i, cfg.opt)
+
     def run(self, cfgs):
         jobs = []
         for c in cfgs:
             for i, t in enumerate(c.prog):
-                j = (t, i, c.opt)
+                j = self.job_of(c, i, t)
                 if j not in self.objs:
                     self.objs[j] = None
                     jobs.append(j)
@@ -376,7 +390,7 @@ def shrink(tc, cfg, key):
                     cands.append(best.prog[:i] + (nt,) + best.prog[i + 1:])
         for prog in cands:
             budget -= 1
-            c = Config(prog, best.lib, best.opt, 'shrunk from: ' + cfg.desc())
+            c = Config(prog, best.lib, best.opt, 'shrunk from: ' + cfg.desc(), best.clash)
             res, _ = tc.run([c])
             r = res[0][1]
             if not r['ok'] and key in failure_keys(r):
@@ -565,7 +579,7 @@ def read_replay(path):
     for line in open(path):
         if line.startswith('#config '):
             d = json.loads(line[len('#config '):])
-            cfgs.append(Config(d['prog'], d['lib'], d.get('opt', 'O0'), d.get('kind', 'replay')))
+            cfgs.append(Config(d['prog'], d['lib'], d.get('opt', 'O0'), d.get('kind', 'replay'), d.get('clash', ())))
     return cfgs
 
 
@@ -590,6 +604,12 @@ def main(tier, seed, replay=None):
         cfgs = read_replay(replay)
     else:
         cfgs = enumerate_configs(names, tier, seed)
+        # namespace: every external symbol of the static library outside cstl_ / __cstl_ is a name a client may use itself
+        foreign = sorted(set(n for n in facts['lib_a'] if not n.startswith(('cstl_', '__cstl_'))))
+        for n in foreign[:8]:
+            cfgs.append(Config([tuple(names)], 'a', 'O0', 'client with an object of its own named %s' % n, clash=(n,)))
+        if foreign:
+            notes.append('libcstl.a exports symbols outside the cstl_ namespace: %s' % ', '.join(foreign[:20]))
     progs = []
     for c in cfgs:
         if c.prog not in progs:
